@@ -369,6 +369,17 @@ mut("C18", "bucket-offset-shifted", "metrics/histograms.go", "offset := int((n -
 var("C18", "bucket-last-clamp-early", "metrics/histograms.go", "\tif pos >= numAtlasBuckets-1 {\n\t\treturn numAtlasBuckets - 1\n\t}", "\tif pos >= numAtlasBuckets-2 {\n\t\treturn numAtlasBuckets - 1\n\t}", "same function of the value")
 var("C07", "key-peek-then-copy", "protocol/binprot/parser.go", "\tbuf := make([]byte, l)\n\tn, err := io.ReadAtLeast(r, buf, int(l))", "\tif br, ok := r.(*bufio.Reader); ok && br.Buffered() >= int(l) {\n\t\tp, _ := br.Peek(int(l))\n\t\tkey := append([]byte(nil), p...)\n\t\tbr.Discard(int(l))\n\t\treturn key, nil\n\t}\n\tbuf := make([]byte, l)\n\tn, err := io.ReadAtLeast(r, buf, int(l))", "the peeked bytes are copied before they are handed out")
 mut("C07", "key-peek-view", "protocol/binprot/parser.go", "\tbuf := make([]byte, l)\n\tn, err := io.ReadAtLeast(r, buf, int(l))", "\tif br, ok := r.(*bufio.Reader); ok && br.Buffered() >= int(l) {\n\t\tp, _ := br.Peek(int(l))\n\t\tbr.Discard(int(l))\n\t\treturn p, nil\n\t}\n\tbuf := make([]byte, l)\n\tn, err := io.ReadAtLeast(r, buf, int(l))", "R7.14")
+mut("C10", "decode-drops-temp-failure", "protocol/binprot/types.go", "\tcase StatusTempFailure:\n\t\treturn common.ErrTempFailure\n\t}\n\treturn nil", "\t}\n\treturn nil", "R10.21")
+mut("C06", "reader-miss-quiet-from-opcode", "handlers/memcached/batched/conn.go", "\t\t\t\t\t\t\t\tMiss:   true,\n\t\t\t\t\t\t\t\tQuiet:  rh.quiet,", "\t\t\t\t\t\t\t\tMiss:   true,\n\t\t\t\t\t\t\t\tQuiet:  resHeader.Opcode == binprot.OpcodeGetQ,", "R6.18")
+mut("C11", "getq-empty-key-continue", "protocol/binprot/parser.go", "\tfor header.Opcode == OpcodeGetQ {\n", "\tfor header.Opcode == OpcodeGetQ {\n\t\tif header.KeyLength == 0 {\n\t\t\tcontinue\n\t\t}\n", "R11.6")
+mut("C13", "jitter-in-milliseconds", "handlers/memcached/batched/conn.go", "jitter := time.Duration(rand.Int63n(int64(total) / 2))", "jitter := time.Duration(rand.Intn(int(total/time.Millisecond)/2)) * time.Millisecond", "R13.17")
+mut("C10", "jitter-in-milliseconds", "handlers/memcached/batched/conn.go", "jitter := time.Duration(rand.Int63n(int64(total) / 2))", "jitter := time.Duration(rand.Intn(int(total/time.Millisecond)/2)) * time.Millisecond", "R10.22")
+mut("C10", "chunked-set-early-return-on-exists", "handlers/memcached/chunked/handler.go", "\tresHeader, err := readResponseHeader(h.rw.Reader)\n\tif err != nil {\n\t\t// Discard response body", "\tresHeader, err := readResponseHeader(h.rw.Reader)\n\tif err == common.ErrKeyExists {\n\t\treturn err\n\t}\n\tif err != nil {\n\t\t// Discard response body", "R10.5")
+mut("C15", "cluster-close-skips-first", "handlers/memcached/cluster/handler.go", "\tfor _, node := range h.nodes {\n\t\tret := node.handler.Close()", "\tfor i := 1; i < len(h.nodes); i++ {\n\t\tret := h.nodes[i].handler.Close()", "R15.9")
+var("C15", "cluster-close-indexed", "handlers/memcached/cluster/handler.go", "\tfor _, node := range h.nodes {\n\t\tret := node.handler.Close()", "\tfor i := 0; i < len(h.nodes); i++ {\n\t\tret := h.nodes[i].handler.Close()", "every element is still closed")
+var("C15", "cluster-close-peeled", "handlers/memcached/cluster/handler.go", "\tvar err error\n\n\tfor _, node := range h.nodes {\n\t\tret := node.handler.Close()", "\tvar err error\n\tif len(h.nodes) == 0 {\n\t\treturn nil\n\t}\n\terr = h.nodes[0].handler.Close()\n\tfor i := 1; i <= len(h.nodes)-1; i++ {\n\t\tret := h.nodes[i].handler.Close()", "every element is still closed")
+var("C01", "sentinel-test-after-discard", "handlers/memcached/std/localComm.go", "\t\tif ioerr != nil {\n\t\t\treturn nil, 0, 0, ioerr\n\t\t}\n\t\treturn nil, 0, 0, err", "\t\tif ioerr != nil {\n\t\t\treturn nil, 0, 0, ioerr\n\t\t}\n\t\tif err == common.ErrKeyNotFound {\n\t\t\treturn nil, 0, 0, common.ErrKeyNotFound\n\t\t}\n\t\treturn nil, 0, 0, err", "the sentinel returned is the one the status was just compared with")
+var("C10", "sentinel-test-after-discard", "handlers/memcached/std/localComm.go", "\t\tif ioerr != nil {\n\t\t\treturn nil, 0, 0, ioerr\n\t\t}\n\t\treturn nil, 0, 0, err", "\t\tif ioerr != nil {\n\t\t\treturn nil, 0, 0, ioerr\n\t\t}\n\t\tif err == common.ErrKeyNotFound {\n\t\t\treturn nil, 0, 0, common.ErrKeyNotFound\n\t\t}\n\t\treturn nil, 0, 0, err", "the body is discarded before the status is compared with a sentinel")
 
 for prop, ms in sorted(M.items()):
     json.dump(ms, open(os.path.join(ROOT, "rendlint", "mutants", prop + ".json"), "w"), indent=1)
